@@ -93,6 +93,11 @@ CLAIMS = {
             'can influence a later step through G; two-job histories with fresh or reused parameter objects must reproduce the first-job result; fresh interpreters under six hash seeds must agree.',
             'Trusted: CrossHair, z3, completeness of G (the history obligations catch state G does not know). Choice enumeration under the tracer; the hash-seed obligation is a concrete side condition, not a solver verdict.',
             'DESIGN.md §5 C18'),
+    'C16': ('other', 'z3 finite-domain queries over fact tables dumped by the real loaders + bounded symbolic execution (CrossHair+z3) of map_index.get_filename with symbolically perturbed keys',
+            'Every rule of the property is the query EXISTS row . NOT rule(row) over the table of all loop/segment nodes of all indexed maps (facts computed by the real loader and node methods): '
+            'unsat = holds for the finite table; the index is checked with symbolic key suffixes: an entry is selected exactly by its own keys.',
+            'Degenerate use of the solver (query engine over a concrete table), flagged in DESIGN.md. Six listed known findings are data defects of the shipped XML maps.',
+            'DESIGN.md §5 C16'),
 }
 
 NOT_YET = 'check not built yet in this round (planned: see DESIGN.md §5)'
